@@ -752,8 +752,13 @@ def compare_chunk(args):
         req, d, table = run_query(doc, text, "req")
         stats["queries"] += 1
         try:
-            rx, mt, attrs = with_timer(lambda: oracle_tables(doc, d, segs))
-        except codec.OutOfModel:
+            try:
+                rx, mt, attrs = with_timer(lambda: oracle_tables(doc, d, segs))
+            except Timeout:
+                # the guard is there for a hanging regular expression; a pause of the interpreter (garbage collection
+                # of a large inherited heap on an overloaded machine) can trip it too: once more with a long limit
+                rx, mt, attrs = with_timer(lambda: oracle_tables(doc, d, segs), 120.0)
+        except (codec.OutOfModel, Timeout):
             stats["oom"] += 1
             continue
         prepared.append((doc, items, text, segs, req, d, table))
